@@ -57,6 +57,7 @@ func c15(r *core.Report) {
 	c15CacheKey(r)
 	c15Publish(r, scope)
 	c15PublishOnce(r, scope)
+	c15AppendAlias(r, scope)
 }
 
 // globalRoot: the package-level variable an address or container value is rooted at (through field,
